@@ -218,12 +218,15 @@ def slow_writer(ck, hb, ref, work, job, ctx):
 def publication_gap(ck, hb, ref, work, job, ctx):
     """A multi-file stage (io::stageFiles of {binary, output} in the OpenMP probe, {binary, build.log} in the vendor
     probe) publishes its files one rename after the other.  Builder A is stopped for seconds right before the
-    LAST rename of each such stage (strace delay injection on exactly those renames); a second builder is started
+    LAST rename of such a stage (strace delay injection; the delay is 1.5 x the time a whole cold build took in the
+    recording, so that the machine's load does not matter); a second builder is started
     as soon as the first file of the pair is visible, so that it meets the half-published stage."""
     rec = os.path.join(work, "gap-rec.strace")
     rcache = os.path.join(work, "cache-gap-rec")
     B.rmtree(rcache)
+    t_rec = time.time()
     B.run_traced(hb, rcache, job.args(), rec, follow=False)
+    t_rec = time.time() - t_rec
     recs = B.main_records(B.parse_strace(rec))
     B.rmtree(rcache)
     # a rename that follows another rename in the same directory with nothing but stat/close in between is the
@@ -262,7 +265,7 @@ def publication_gap(ck, hb, ref, work, job, ctx):
     # strace takes one `when` per syscall: delay every rename in [first..last] that is the last of a stage - they are few
     when = "%d..%d+%d" % (first, last, max(1, (last - first))) if len(rn) > 1 else "%d" % first
     cmd = ["strace", "-o", os.path.join(work, "gap-a.strace"), "-e", "trace=rename",
-           "-e", "inject=rename:delay_enter=4000000:when=%s" % when, hb] + job.args()
+           "-e", "inject=rename:delay_enter=%d:when=%s" % (int(max(4.0, 1.5 * t_rec) * 1e6), when), hb] + job.args()
     pa = B.popen_group(cmd, B.run_env(cache))
     others, seen_first = [], set()
     t0 = time.time()
